@@ -183,6 +183,12 @@ def run_session(exe, steps, search_timeout=120):
                 mode = st.get("mode", "wait")
                 if mode == "wait":
                     lines = eng.read_until("bestmove", search_timeout)
+                elif mode == "stop_after_info":
+                    # `go infinite` that must not be stopped before the search proper has begun (the
+                    # on-demand tablebase is generated before the first `info depth` line): no fixed wait
+                    lines = eng.read_until("info depth", search_timeout)
+                    eng.send("stop")
+                    lines += eng.read_until("bestmove", search_timeout)
                 else:
                     time.sleep(st.get("wait", 20) / 1000.0)
                     if mode == "ponderhit":
